@@ -81,10 +81,10 @@ MISC = {
  "memo_quick": dict(acts=S("MemoRequest"), maxp=1, extra=1, memon=4, rich="FALSE", depth=2, props=["MemoMonotone"]),
  "memo_thorough": dict(acts=S("MemoRequest"), maxp=1, extra=1, memon=5, rich="FALSE", depth=3, props=["MemoMonotone"]),
  "length_quick": dict(acts=S("GeoLength"), maxp=1, extra=1, memon=2, rich="TRUE", depth=1, props=[]),
- "project_quick": dict(acts=S("GeoProject"), maxp=1, extra=1, memon=2, rich="FALSE", depth=1, props=[]),
- "project_thorough": dict(acts=S("GeoProject"), maxp=1, extra=1, memon=2, rich="TRUE", depth=1, props=[]),
- "intersect_quick": dict(acts=S("GeoIntersect"), maxp=1, extra=1, memon=2, rich="FALSE", depth=1, props=[]),
- "intersect_thorough": dict(acts=S("GeoIntersect"), maxp=1, extra=1, memon=2, rich="TRUE", depth=1, props=[]),
+ "project_quick": dict(acts=S("GeoProject", "GeoProjectOn"), maxp=1, extra=1, memon=2, rich="FALSE", depth=1, props=[]),
+ "project_thorough": dict(acts=S("GeoProject", "GeoProjectOn"), maxp=1, extra=1, memon=2, rich="TRUE", depth=1, props=[]),
+ "intersect_quick": dict(acts=S("GeoIntersect", "GeoIntersectCurved"), maxp=1, extra=1, memon=2, rich="FALSE", depth=1, props=[]),
+ "intersect_thorough": dict(acts=S("GeoIntersect", "GeoIntersectCurved"), maxp=1, extra=1, memon=2, rich="TRUE", depth=1, props=[]),
 }
 for name, c in MISC.items():
     props = "\n".join(f"PROPERTY {p}" for p in c["props"])
